@@ -16,6 +16,7 @@
 #include <sys/wait.h>
 
 /* parameters of one scenario */
+static int P_flush = -1;                             /* stop >= 100: no early stop, io_flush() after stripe stop - 100 (what an autosave does) */
 static int P_iomax, P_nd, P_np, P_ns, P_enabled, P_skip, P_stop, P_role, P_sigout, P_errw, P_errpos, P_rerr, P_rerrpos;
 
 #define MAXBUF 8
@@ -255,6 +256,22 @@ static void scenario(void)
 			io_write_next(&io, pos, skip, writer_error);
 			for (j = 0; j < IO_WRITER_ERROR_MAX; ++j)
 				collected_err += writer_error[j];
+			if (P_flush >= 0 && main_stripe == P_flush) {
+				/* an autosave: when io_flush() returns, every scheduled parity write is complete */
+				int sched = 0, s2;
+				for (j = 0; j < n_w; ++j)
+					if (wlist[j] <= (int)pos)
+						++sched;
+				main_phase = 7;
+				io_flush(&io);
+				for (l = 0; l < P_np; ++l) {
+					if (expect_w[l] != sched)
+						FAIL("flush-incomplete: io_flush returned, writer %d started %d of %d scheduled writes (pos %u)", l, expect_w[l], sched, pos);
+					for (s2 = 0; s2 < P_iomax; ++s2)
+						if (own[s2][P_nd + l] == WORKER)
+							FAIL("flush-incomplete: io_flush returned while writer %d still writes from slot %d (pos %u)", l, s2, pos);
+				}
+			}
 		}
 		main_phase = 5;
 		if (P_stop >= 0 && main_stripe == P_stop)
@@ -379,6 +396,7 @@ int main(int argc, char** argv)
 	P_iomax = atoi(argv[2]); P_nd = atoi(argv[3]); P_np = atoi(argv[4]); P_ns = atoi(argv[5]);
 	P_enabled = strtol(argv[6], 0, 0); P_skip = strtol(argv[7], 0, 0); P_stop = atoi(argv[8]); P_role = atoi(argv[9]);
 	P_sigout = atoi(argv[10]); P_errw = atoi(argv[11]); P_errpos = atoi(argv[12]); P_rerr = atoi(argv[13]); P_rerrpos = atoi(argv[14]);
+	if (P_stop >= 100) { P_flush = P_stop - 100; P_stop = -1; }
 	mode = atoi(argv[15]); bound = atoi(argv[16]); maxexec = atol(argv[17]);
 	deadline = time(0) + (argc > 18 ? atoi(argv[18]) : 3600);
 	TR = mmap(0, sizeof(struct vps_trace), PROT_READ | PROT_WRITE, MAP_SHARED | MAP_ANONYMOUS, -1, 0);
